@@ -94,3 +94,84 @@ Proof.
   split; [cbn; intuition congruence|].
   vm_compute. repeat split; reflexivity.
 Qed.
+
+(** *** The life cycle of the index (FastLife.v): persisted entries with their versions, the
+    persisted and in-memory label, the option a tree object was opened with, unsaved additions and
+    removals, through Set / Remove / SaveVersion (incl. the same-hash path) / Rollback / open with
+    the index on or off / a new object loading any version directly / LoadVersion /
+    LoadVersionForOverwriting / DeleteVersionsTo.  [fstep] returns what THE CODE answers through
+    the index; these are the logical answers (MTree) at every point of every in-contract history. *)
+From IAVL Require Import Varint Sha256 Tree MTree MTreeFacts VersionFacts Store StoreFacts FastLife FastLifeFacts1 FastLifeFacts2 FastLifeFacts3 FastLifeFacts FastLifeFacts4.
+Local Open Scope Z_scope.
+
+Theorem C07_invariant_spelled_out : forall st,
+  fcoh st <->
+  (dlabel st = mlabel st /\
+   (skipf st = false -> mlabel st = Some (latest_version (ms st))) /\
+   (forall u, dlabel st = Some u -> u <= latest_version (ms st)) /\
+   (forall u, dlabel st = Some u -> u = latest_version (ms st) -> idx_valid (ms st) (fidx st)) /\
+   (skipf st = true -> adds st = [] /\ rems st = []) /\
+   msorted bcmp (adds st) /\ msorted bcmp (rems st) /\
+   (forall k, mfind bcmp k (adds st) <> None -> mfind bcmp k (rems st) = None) /\
+   (skipf st = false -> unsaved_ok (ms st) (adds st) (rems st)) /\
+   adds_stamped (ms st) (adds st)).
+Proof. exact fcoh_spec. Qed.
+Print Assumptions C07_invariant_spelled_out.
+
+Theorem C07_every_answer_through_the_index_is_logical :
+  forall (H : bytes -> bytes) (st : fstate) (o : fop),
+    state_inv (ms st) -> contig (ms st) -> fin_contract H st o -> fcoh st ->
+    ms (fst (fstep H st o)) = fst (run H (ms st) (logical_ops o)) /\
+    snd (fstep H st o) = last (snd (run H (ms st) (logical_ops o))) XErr.
+Proof. exact fstep_logical. Qed.
+Print Assumptions C07_every_answer_through_the_index_is_logical.
+
+Theorem C07_invariant_preserved :
+  forall (H : bytes -> bytes) (st : fstate) (o : fop),
+    state_inv (ms st) -> contig (ms st) -> fin_contract H st o -> fcoh st ->
+    fcoh (fst (fstep H st o)).
+Proof. exact fcoh_step. Qed.
+Print Assumptions C07_invariant_preserved.
+
+Theorem C07_every_history :
+  forall (H : bytes -> bytes) (iv : Z) (b : bool) (skip0 : bool) (ops : list fop),
+    init_ok iv b ->
+    let st0 := fst (fstep H (finit iv b) (FOpen skip0)) in
+    frun_ok H st0 ops ->
+    ms st0 = fst (step H (init_state iv b) OReopen) /\
+    ms (fst (frun H st0 ops)) = fst (run H (ms st0) (concat (map logical_ops ops))) /\
+    snd (frun H st0 ops) = visible ops (snd (run H (ms st0) (concat (map logical_ops ops)))) /\
+    fcoh (fst (frun H st0 ops)).
+Proof. exact frun_logical. Qed.
+Print Assumptions C07_every_history.
+
+(** [fin_contract] asks, at a commit of an EXISTING version, that equal hashes mean equal contents
+    ([save_honest]); that holds unless the hash collides *)
+Theorem C07_every_history_collision_free_hash :
+  forall (H : bytes -> bytes), (forall x, length (H x) = 32%nat) ->
+  forall (iv : Z) (b : bool) (skip0 : bool) (ops : list fop),
+    (forall x y, H x = H y -> x = y) ->
+    init_ok iv b ->
+    let st0 := fst (fstep H (finit iv b) (FOpen skip0)) in
+    frun_ok_cf H st0 ops ->
+    snd (frun H st0 ops) =
+      visible ops (snd (run H (ms st0) (concat (map logical_ops ops)))) /\
+    ms (fst (frun H st0 ops)) = fst (run H (ms st0) (concat (map logical_ops ops))) /\
+    fcoh (fst (frun H st0 ops)).
+Proof. intros H Hlen. exact (frun_logical_collision_free H Hlen). Qed.
+Print Assumptions C07_every_history_collision_free_hash.
+
+(** why three details of the code matter *)
+Theorem C07_drop_label_refuted : ltac:(let t := type of drop_label_refuted in exact t).
+Proof. exact drop_label_refuted. Qed.
+Print Assumptions C07_drop_label_refuted.
+Theorem C07_rebuild_from_loaded_refuted : ltac:(let t := type of rebuild_from_loaded_refuted in exact t).
+Proof. exact rebuild_from_loaded_refuted. Qed.
+Print Assumptions C07_rebuild_from_loaded_refuted.
+(** finding C07-unloaded-object-stale-index: an object whose first LoadVersion failed *)
+Theorem C07_unloaded_object_refuted : ltac:(let t := type of openat_failed_refuted in exact t).
+Proof. exact openat_failed_refuted. Qed.
+Print Assumptions C07_unloaded_object_refuted.
+
+Example C07_history_example : ltac:(let t := type of frun_logical_example in exact t).
+Proof. exact frun_logical_example. Qed.
